@@ -18,11 +18,11 @@ VERIF = os.path.dirname(os.path.dirname(os.path.abspath(__file__)))
 # name -> metadata.  `tier`: 'quick' harnesses run in both tiers, 'thorough' only in the thorough tier.
 HARNESSES = {
     'U11': dict(
-        crate='renetcode', title='netcode packet/prefix/sequence/token codecs (renetcode/src/{packet,token}.rs)',
+        crate='renetcode', title='netcode packet/prefix/sequence codecs (renetcode/src/packet.rs)',
         props=['C04', 'C07', 'C13', 'C16', 'C17', 'C19'],
         functions=['sequence_bytes_required', 'encode_prefix', 'decode_prefix', 'write_sequence', 'read_sequence',
                    'get_additional_data', 'Packet::encode', 'Packet::decode', 'Packet::read', 'Packet::write',
-                   'ChallengeToken::decode', 'PrivateConnectToken::{encode,decode,read,write}', 'ConnectToken::{read,write}'],
+                   'ChallengeToken::decode'],
         harnesses=[],
     ),
     'U12': dict(
